@@ -80,9 +80,10 @@ macro "eq_rw " h:ident : tactic => `(tactic| (
   have e4 := isBinaryCtx_perm (S.perm $h) (S.nodup $h)
   have e5 := binaryAffineValue_perm (S.perm $h) (S.nodup $h)
   have e6 := tryNormalize_perm (S.perm $h) (S.nodup $h)
-  try simp only [e1, e2, e3, e4, e5, e6, S.queue $h, S.rows $h, S.cMin $h, S.cMax $h, S.cAbs $h, S.cAnd $h, S.cOr $h,
+  have e7 := isLogicValue_perm (S.perm $h) (S.nodup $h)
+  try simp only [e1, e2, e3, e4, e5, e6, e7, S.queue $h, S.rows $h, S.cMin $h, S.cMax $h, S.cAbs $h, S.cAnd $h, S.cOr $h,
     S.cXor $h, S.cImp $h, S.cIff $h, S.cWit $h]
-  clear e1 e2 e3 e4 e5 e6))
+  clear e1 e2 e3 e4 e5 e6 e7))
 
 macro "eq_call" : tactic => `(tactic| first
     | apply_eq2_hyp
@@ -256,6 +257,37 @@ theorem drain2 : ∀ (n : Nat) (s s' : St α), Eq2 s s' (drain n) (drain n)
     have h3 := @emitConstraint2 α _
     rw [drain.eq_2]
     eq_go
+
+/-! ### the up-front collapse check (rooc 81a4b76, e35561f) -/
+
+theorem collapseNode2 (e : Exp α) (s s' : St α) : Eq2 s s' (collapseNode e) (collapseNode e) := by
+  unfold collapseNode
+  have h1 := (linExp_block2 (α := α)).1
+  eq_go
+
+theorem collapseCheck_block2 :
+    (∀ (e : Exp α), ∀ s s', Eq2 s s' (collapseCheck e) (collapseCheck e)) ∧
+    (∀ (es : List (Exp α)), ∀ s s', Eq2 s s' (collapseCheckList es) (collapseCheckList es)) := by
+  have h1 := @collapseNode2 α _
+  apply collapseCheck.mutual_induct
+    (motive_1 := fun e => ∀ s s', Eq2 s s' (collapseCheck e) (collapseCheck e))
+    (motive_2 := fun es => ∀ s s', Eq2 s s' (collapseCheckList es) (collapseCheckList es))
+  all_goals (intros; (first | simp only [collapseCheck] | simp only [collapseCheckList] | skip); eq_go)
+
+theorem collapseCheckConstraints2 : ∀ (cs : List (Constraint α)) (s s' : St α),
+    Eq2 s s' (collapseCheckConstraints cs) (collapseCheckConstraints cs)
+  | [], s, s' => by simp only [collapseCheckConstraints]; exact Eq2.pure2 _
+  | c :: cs, s, s' => by
+    have ih := collapseCheckConstraints2 cs
+    have h1 := (collapseCheck_block2 (α := α)).1
+    simp only [collapseCheckConstraints]
+    eq_go
+
+theorem collapseCheckAll2 (m : Model α) (s s' : St α) : Eq2 s s' (collapseCheckAll m) (collapseCheckAll m) := by
+  unfold collapseCheckAll
+  have h1 := (collapseCheck_block2 (α := α)).1
+  have h2 := @collapseCheckConstraints2 α _
+  eq_go
 
 /-! ### the whole lowering -/
 
